@@ -294,7 +294,7 @@ def rule_ag_vocab(repo, col):
               'specification\'s %s' % (sorted(types), sorted(want)))
     f = repo.func(VAL, 'TableValidator._valid_type')
     lowered = any(isinstance(n, ast.Compare) and isinstance(
-        n.ops[0], ast.NotIn) and 'lower' in unparse(n.left) and
+        n.ops[0], (ast.NotIn, ast.In)) and 'lower' in unparse(n.left) and
         dotted(n.comparators[0]) == 'self.TableTypes'
         for n in body_walk(f))
     col.check(lowered, rule, VAL, 'TableValidator._valid_type', 'case-fold',
